@@ -179,3 +179,65 @@ Proof.
   - exact (common_lock_ordered [mkEv 1 (Acq 0)] (mkEv 1 (Acc 7 true)) [mkEv 1 (Rel 0); mkEv 2 (Acq 0)] (mkEv 2 (Acc 7 false)) [mkEv 2 (Rel 0)]
              0 7 true ltac:(cbn; repeat split; reflexivity) eq_refl eq_refl eq_refl ltac:(cbn; lia)).
 Qed.
+
+(* ---------------------------------------------------------------- *)
+(* J5 (publication): a goroutine writes a location with no lock held, then
+   publishes it inside a critical section of m (trackConn under connsMu); another
+   goroutine enters a critical section of m later and reads it there.  The write
+   is ordered before the read: program order to the Unlock, Unlock -> Lock, program
+   order to the read. *)
+Theorem publication_ordered tr iw ir iu il ew er eu el m :
+  nth_error tr iw = Some ew -> nth_error tr iu = Some eu -> nth_error tr il = Some el -> nth_error tr ir = Some er ->
+  iw < iu -> iu < il -> il < ir ->
+  thr ew = thr eu -> what eu = Rel m ->
+  thr el = thr er -> what el = Acq m ->
+  hb tr iw ir.
+Proof.
+  intros Hw Hu Hl Hr L1 L2 L3 T1 Wu T2 Wl.
+  apply hb_trans with iu; [eapply hb_po; eauto|].
+  apply hb_trans with il; [eapply hb_sync; eauto|eapply hb_po; eauto].
+Qed.
+
+(* ---------------------------------------------------------------- *)
+(* J4 (spawn): traces with `go` statements.  [Fork c] by a goroutine starts
+   goroutine c; everything the parent did before the statement is ordered before
+   everything the child does (Go memory model: the go statement is synchronized
+   before the start of the goroutine's execution). *)
+Inductive fact := FAct (a : act) | FFork (child : nat).
+Record fev := mkFev { fthr : nat; fwhat : fact }.
+
+Inductive fhb (tr : list fev) : nat -> nat -> Prop :=
+| fhb_po i j ei ej : i < j -> nth_error tr i = Some ei -> nth_error tr j = Some ej -> fthr ei = fthr ej -> fhb tr i j
+| fhb_fork i j ei ej c : i < j -> nth_error tr i = Some ei -> nth_error tr j = Some ej ->
+                         fwhat ei = FFork c -> fthr ej = c -> fhb tr i j
+| fhb_trans i j k : fhb tr i j -> fhb tr j k -> fhb tr i k.
+
+(* a goroutine does nothing before the go statement that starts it *)
+Definition started_by_fork (tr : list fev) (c : nat) (ifork : nat) : Prop :=
+  forall j ej, nth_error tr j = Some ej -> fthr ej = c -> ifork < j.
+
+Theorem spawn_ordered tr ip ifork jc ep ef ec c :
+  nth_error tr ip = Some ep -> nth_error tr ifork = Some ef -> nth_error tr jc = Some ec ->
+  ip < ifork -> fthr ep = fthr ef -> fwhat ef = FFork c -> fthr ec = c ->
+  started_by_fork tr c ifork ->
+  fhb tr ip jc.
+Proof.
+  intros Hp Hf Hc L T W Tc Hs.
+  pose proof (Hs jc ec Hc Tc) as Lj.
+  apply fhb_trans with ifork; [eapply fhb_po; eauto|eapply fhb_fork; eauto].
+Qed.
+
+(* and transitively to grandchildren: the per-request goroutines are started by the
+   connection's goroutine, which Run started *)
+Theorem spawn_ordered_twice tr ip if1 if2 jc ep e1 e2 ec c1 c2 :
+  nth_error tr ip = Some ep -> nth_error tr if1 = Some e1 -> nth_error tr if2 = Some e2 -> nth_error tr jc = Some ec ->
+  ip < if1 -> fthr ep = fthr e1 -> fwhat e1 = FFork c1 ->
+  fthr e2 = c1 -> fwhat e2 = FFork c2 -> fthr ec = c2 ->
+  started_by_fork tr c1 if1 -> started_by_fork tr c2 if2 ->
+  fhb tr ip jc.
+Proof.
+  intros Hp H1 H2 Hc L T W1 T2 W2 Tc S1 S2.
+  pose proof (S1 if2 e2 H2 T2) as L12. pose proof (S2 jc ec Hc Tc) as L2c.
+  apply fhb_trans with if1; [eapply fhb_po; eauto|].
+  apply fhb_trans with if2; [eapply fhb_fork; eauto|eapply fhb_fork; eauto].
+Qed.
